@@ -206,6 +206,7 @@ LEAF_PARK_OPS = ("wait", "step", "wait_for_condition", "invoke", "callback.resul
 
 def judge_c03(d, _=None):
     out = []
+    faulty = {i["n"] for i in d.invocations if i.get("faults") or i.get("crash")}
     for o in d.world.obs:
         if o["kind"] == "ret":
             if o["op"] == "create_callback":
@@ -217,7 +218,9 @@ def judge_c03(d, _=None):
                 V(out, "C03", "returned-before-record-accepted",
                   f"{o['op']} at {fmt_path(o['path'])} returned {o['r']} in invocation {o['inv']} while the backend "
                   f"row was {o['row_status']}", op=o["op"], row=o["row_status"])
-        elif o["kind"] == "exc" and not o.get("invocation_error"):
+        elif o["kind"] == "exc" and not (o.get("invocation_error") and o["inv"] in faulty):
+            # (an invocation-class error is the legitimate way a failed checkpoint call surfaces; in an invocation without
+            # an injected fault it can only come from user code and must be recorded like any other failure)
             cls = o["r"].split(":")[1]
             if cls in EXEMPT_EXC or o["op"] in ("create_callback",):
                 continue
@@ -357,7 +360,8 @@ def judge_c07(d, _=None):
             V(out, "C07", "pending-with-nothing-armed",
               f"invocation {inv['n']} returned PENDING but the backend has no armed timer and awaits no event")
     f = d.final or {}
-    if f.get("status") in ("MAXINV", "STUCK", "RAISED"):
+    faulted = any(i.get("faults") for i in d.invocations)   # a rejected checkpoint call legitimately ends in a raised invocation
+    if f.get("status") in ("MAXINV", "STUCK", "RAISED") and not (faulted and f.get("status") == "RAISED"):
         V(out, "C07", "execution-does-not-terminate",
           f"execution ended {f.get('status')} after {len(d.invocations)} invocations", how=f.get("status"))
     return out
@@ -537,9 +541,11 @@ def judge_c06(d, _=None):
                       f"{o['op']} at {fmt_path(o['path'])} returned {o['r']} after the checkpoint failure although the "
                       f"backend row is {o['row_status']}", op=o["op"])
         for e in d.world.entries:
-            if e["inv"] == inv["n"] and e["tick"] > tf and e["path"] in most and e["status"] != "STARTED":
+            if e["inv"] == inv["n"] and e["path"] in most and e["status"] != "STARTED":
+                when = "after" if e["tick"] > tf else "before"
                 V(out, "C06", "at-most-once-entered-without-start-after-failure",
-                  f"at-most-once step {fmt_path(e['path'])} entered after the failure with backend row {e['status']}")
+                  f"at-most-once step {fmt_path(e['path'])} entered ({when} the failing call) while the backend row was "
+                  f"{e['status']}: its START was not accepted, and the failure of call {f['call']} means it never will be")
     return out
 
 
